@@ -12,10 +12,10 @@ RULE = ('case = (word generated from one reference row of the ~110 multiply/divi
         'reversal encodings A1/T1/T2 with all parameter fields random or at corners, random valid state with operands '
         'from a lane-boundary pool: 0x7F/0x80/0xFF bytes, 0x7FFF/0x8000 halfwords, products hitting 2^32 / 2^64, '
         'INT_MIN/-1, divisor 0, prior Q and GE random; for 30% of the multiply-accumulate cases the accumulator is solved '
-        'so that the result is 0 / 2^31 / 2^32 / 2^63 / all ones); full-state comparison; non-trivial = destination or Q/GE changed; '
+        'so that the result is 0 / 2^31 / 2^32 / 2^63 / all ones; for 15% of the 32x32 multiplies the two factors are solved so that the low word of the full product is 0, 1, 0x7FFFFFFF..0x80000001 or within 2048 of 2^32 while the product is large); full-state comparison; non-trivial = destination or Q/GE changed; '
         'distinct = (row, IT position, configuration)')
 ASSUMPTIONS = ['vf/ref/sem_dp.py transcribes the A8 pseudocode of these instructions',
-               'SDIV/UDIV by zero with the ARMv7-R DZ trap enabled is not judged']
+               'SDIV/UDIV by zero with the ARMv7-R trap enabled (SCTLR.DZ) is judged as the Undefined Instruction exception']
 
 POOL = [0, 1, 2, 0x7F, 0x80, 0xFF, 0x100, 0x7FFF, 0x8000, 0xFFFF, 0x10000, 0x7FFFFFFF, 0x80000000, 0x80000001, 0xFFFFFFFF,
         0xFFFFFFFE, 0x7F80FF00, 0x80008000, 0x7FFF8000, 0x80007FFF, 0x7F7F7F7F, 0x80808080, 0xFF00FF00, 0x00FF00FF,
